@@ -42,6 +42,47 @@ T = {
    needs="a deposit (direction Into) whose swap path starts with the deposit's own market and continues to another market",
    demo="cargo test -p gmsol-store --lib swap_path_demo (in-crate module, see demo.md / demo.diff)",
    caught_by={"C44": "oracle recorded_balance_not_moved_by_hop", "C22": "oracle vault_below_recorded"}, not_caught_by=[]),
+
+ "C04-a": dict(property="C04", file="crates/model/src/action/swap.rs",
+   summary="Swap::try_execute positive-impact branch: the capped remainder binding is shadowed inside the if-block, so the token-in swap impact pool is debited 0 while the remainder is still credited to the liquidity pool and paid out",
+   needs="one swap with positive price impact, capped because the output token's swap impact pool is too small (an empty pool counts), while the input token's swap impact pool is non-zero",
+   demo="cargo test -p gmsol-model --offline --test swap_conservation",
+   caught_by={"C04": "oracle swap_holdings_in (holdings of the input token change by exactly the input amount)", "C05": "oracle swap_overpays"}, not_caught_by=[]),
+ "C06-a": dict(property="C06", file="crates/model/src/action/deposit.rs",
+   summary="positive-impact deposits mint market tokens from the uncapped USD impact instead of the capped amount actually taken from the swap impact pool",
+   needs="an imbalanced non-empty pool whose abundant token's swap impact pool cannot cover the positive impact (e.g. imbalance caused by a price move), then a rebalancing deposit",
+   demo="cargo test -p gmsol-model --offline --test lp_round_trip",
+   caught_by={"C06": "oracle lp_value_decreased (value per market token of existing LPs never decreases on a deposit)"}, not_caught_by=[]),
+ "C08-a": dict(property="C08", file="crates/model/src/action/decrease_position/collateral_processor.rs",
+   summary="pay_for_fees_excluding_funding books the full pool/receiver fees even when the cost was only partly paid (remaining_cost non-zero)",
+   needs="a liquidation or ADL (insolvent close allowed) whose collateral covers funding and the realised loss but only part of the fees (insolvent close step = Fees), no secondary-output payment",
+   demo="cargo test -p gmsol-model --offline --test seed_c08_demo",
+   caught_by={"C08": "oracle ledger_identity (independent tokens-in/tokens-out ledger vs accounted pools after every operation; not matched by the two listed known findings)"}, not_caught_by=[]),
+ "C13-a": dict(property="C13", file="crates/model/src/position.rs",
+   summary="update_total_borrowing returns early when the size is unchanged, although the position's borrowing factor snapshot still moves",
+   needs="an open position, a clock advance with update_borrowing so the cumulative factor moves, then an increase/decrease of that position with size_delta_usd == 0 (collateral-only)",
+   demo="cargo test -p gmsol-model --offline --test total_borrowing_consistency",
+   caught_by={"C13": "oracle total_borrowing_sum (total_borrowing == sum over open positions of floor(size x factor) after every operation)"}, not_caught_by=[]),
+ "C16-a": dict(property="C16", file="programs/store/src/states/market/config.rs",
+   summary="skip_borrowing_fee_for_smaller_side(is_market_closed) chooses the closed-market flag by the closed state alone, ignoring enable_market_closed_params",
+   needs="market closed, enable_market_closed_params off, and the two skip flags holding different values",
+   demo="cargo test -p gmsol-store --offline --test closed_market_params_switch",
+   caught_by={"C16": "oracle closed_market_flag - ADDED because of this change: the first run missed it (the model-parameter oracle only looked at open markets)", "C40": "oracle decoding_differs on an altered copy (what-if contents, also added after this change)"}, not_caught_by=[]),
+ "C24-a": dict(property="C24", file="programs/store/src/states/oracle/validator.rs",
+   summary="the max-age check moved from per token to once per request and tests the newest timestamp instead of the oldest",
+   needs="a request loading >= 2 tokens where one adjusted timestamp is older than now - max_age while another is fresh, spread within oracle_max_timestamp_range, feed heartbeat longer than max age",
+   demo="cargo test -p gmsol-store --offline --lib c24_ (in-crate module, demo-install.diff)",
+   caught_by={"C24": "oracle accepted_violates_predicate check=max_age"}, not_caught_by=[]),
+ "C30-a": dict(property="C30", file="programs/store/src/states/gt.rs",
+   summary="next_minting_cost applies the grow factor once instead of once per newly entered step",
+   needs="a single mint whose amount crosses two or more multiples of grow_step_amount",
+   demo="cargo test -p gmsol-store --offline --lib c30 (in-crate module, demo-hook.diff)",
+   caught_by={"C30": "oracle cost_schedule (stored cost == cost0 x grow^k for the step k reached by total minted)"}, not_caught_by=[]),
+ "C38-a": dict(property="C38", file="programs/liquidity-provider/src/lib.rs",
+   summary="compute_time_weighted_apy caps the full-week loop at APY_BUCKETS instead of APY_LAST_INDEX, counting week 52 twice",
+   needs="a position staked for at least 53 full weeks with a non-zero last APY bucket",
+   demo="cargo test -p gmsol-liquidity-provider --offline (in-crate module seed_c38_demo)",
+   caught_by={"C38": "oracle reward_schedule (minted GT within the rounding interval of the reference integral of the weekly schedule)"}, not_caught_by=[]),
 }
 
 def main():
